@@ -8,6 +8,7 @@
 
 #include "../engine/seqx/seqx.h"
 #include "common_seq.h"
+#include <vector>
 
 namespace {
 
@@ -477,6 +478,49 @@ static void run_refvalue_cell(seqx::Runner &R, int how, int comp, int depth) {
     R.state(seqx::hash_str(d.str()));
     R.end(true);
 }
+// result type whose constructors tell parentheses from braces: the value is built from the co_return operand the way
+// T(operand) builds it (three elements), in every way of binding the result
+static cocls::async<std::vector<int>> three_elements(int &runs) {
+    runs++;
+    co_return 3;
+}
+static void run_ctor_cell(seqx::Runner &R, int how) {
+    static const char *names[] = {"join", "start().wait", "start(promise)", "future(async)"};
+    std::string d = std::string("ctor-form;how=") + std::to_string(how) + ":" + names[how];
+    R.begin(d);
+    int64_t base = seqx::live_allocs();
+    {
+        int runs = 0;
+        std::vector<int> got;
+        switch (how) {
+            case 0: got = three_elements(runs).join(); break;
+            case 1: {
+                cocls::future<std::vector<int>> f = three_elements(runs).start();
+                got = f.wait();
+                break;
+            }
+            case 2: {
+                cocls::future<std::vector<int>> f;
+                cocls::promise<std::vector<int>> p = f.get_promise();
+                three_elements(runs).start(p);
+                got = f.wait();
+                break;
+            }
+            default: {
+                cocls::future<std::vector<int>> f(three_elements(runs));
+                got = f.wait();
+                break;
+            }
+        }
+        if (runs != 1) R.fail("async/body-count", "body ran %d times", runs);
+        if (got.size() != 3 || got[0] != 0) R.fail("async/wrong-delivery", "co_return 3 for a vector<int> result delivered a vector of %zu elements (first %d); std::vector<int>(3) has three zeroes", got.size(), got.empty() ? -1 : got[0]);
+        R.outcome((uint64_t)got.size());
+        R.state(seqx::hash_str(d));
+    }
+    if (!R.case_fail && seqx::live_allocs() != base) R.fail("async/frame-balance", "%ld allocations not released", (long)(seqx::live_allocs() - base));
+    R.end(true);
+}
+
 static void refvalue_cells(seqx::Runner &R, int only_how = -1, int only_comp = -1, int only_depth = -1) {
     for (int how = 0; how < 3; how++)
         for (int cm = 0; cm < NCOMPL; cm++)
@@ -497,10 +541,17 @@ void seqx_run(seqx::Runner &R, const std::string &) {
     cells<Counted>(R);
     cells<int &>(R);
     refvalue_cells(R);
+    for (int how = 0; how < 4; how++)
+        if (R.next_case()) run_ctor_cell(R, how);
 }
 
 void seqx_replay(seqx::Runner &R, const std::string &c) {
     seq_warmup();
+    if (c.rfind("ctor-form;", 0) == 0) {
+        R.next_case();
+        run_ctor_cell(R, atoi(c.c_str() + c.find("how=") + 4));
+        return;
+    }
     int st = 0, cm = 0, depth = 1;
     // the longest matching name wins (some names are prefixes of others)
     size_t best = 0;
